@@ -583,9 +583,16 @@ fn find_first_undefined_reference(
       for inner in pair.clone().into_inner() {
         match inner.as_rule() {
           Rule::typename | Rule::groupname => {
-            for id_pair in inner.into_inner() {
-              if id_pair.as_rule() == Rule::id {
-                defined.insert(id_pair.as_str().to_string());
+            // `$name` / `$$name` define a socket, not the plain name `name`
+            let is_socket = inner
+              .clone()
+              .into_inner()
+              .any(|c| matches!(c.as_rule(), Rule::socket_type | Rule::socket_group));
+            if !is_socket {
+              for id_pair in inner.into_inner() {
+                if id_pair.as_rule() == Rule::id {
+                  defined.insert(id_pair.as_str().to_string());
+                }
               }
             }
           }
